@@ -43,6 +43,7 @@ func newKey(seed uint64, name string) key {
 
 // world is the per-run universe: keys, parameters, nodes.
 type world struct {
+	restoreParams func() // undoes changes to package-level parameters (params.UserVerifyTxn) made for this run
 	wltServ  *wallet.Service // nil except in the API engine
 	c        *sim.Ctx
 	pubKey   key // block publisher
@@ -169,5 +170,9 @@ func (n *node) dbFingerprint(skip map[string]bool) string {
 func (w *world) closeAll() {
 	for _, n := range w.nodes {
 		n.stop()
+	}
+	if w.restoreParams != nil {
+		w.restoreParams()
+		w.restoreParams = nil
 	}
 }
